@@ -143,6 +143,83 @@ theorem no_tenant_sees_nothing (sh : Shard) (early : Bool) (maxRepo : Nat) (mode
     obtain ⟨r, _, hacc, _⟩ := (list_filtered _ sh mode early field).2 w hw
     simp [hasAccess_none] at hacc
 
+/-! ### the statement as evaluated by the driver -/
+
+theorem fileOk_of_from (acc : Int → Bool) (sh : Shard) (f : FileOut) (h : FileFrom acc sh f) :
+    fileOk acc sh (f.repository, f.repositoryID, f.fileName) = true := by
+  obtain ⟨r, d, h1, h2, h3, h4, h5, h6, h7, h8, h9⟩ := h
+  unfold fileOk
+  rw [List.any_eq_true]
+  refine ⟨(r, f.repoIdx), List.mem_zipIdx_iff_getElem?.2 (by simpa using h1), ?_⟩
+  simp only [h4, h5, h7, h8, Bool.not_false, Bool.and_self, beq_self_eq_true, Bool.true_and, List.any_eq_true]
+  exact ⟨d, List.mem_of_getElem? h2, by simp [h3, h9]⟩
+
+/-- **C23 as evaluated by the driver on the implementation's output, search**: what the model returns satisfies the
+    executable statement `checkSearch` (the predicate the driver applies to the real `SearchResult`). -/
+theorem C23_checkSearch (acc : Int → Bool) (sh : Shard) (early : Bool) (maxRepo : Nat) :
+    checkSearch acc sh (observeSearch (search acc sh early maxRepo)) = true := by
+  unfold checkSearch observeSearch
+  simp only [Bool.and_eq_true, List.all_eq_true]
+  refine ⟨⟨?_, ?_⟩, ?_⟩
+  · intro x hx
+    rw [List.mem_map] at hx
+    obtain ⟨f, hf, rfl⟩ := hx
+    exact fileOk_of_from acc sh f (files_filtered acc sh early maxRepo f hf)
+  · intro p hp
+    exact pairOk_of_mem acc sh _ _ p ((maps_filtered_final acc sh early maxRepo).1 p hp)
+  · intro p hp
+    exact pairOk_of_mem acc sh _ _ p ((maps_filtered_final acc sh early maxRepo).2 p hp)
+
+/-- **C23 as evaluated by the driver, list** -/
+theorem C23_checkList (acc : Int → Bool) (sh : Shard) (mode : ListMode) (early : Bool) (field : Field) :
+    checkList acc sh (observeList sh (list acc sh mode early field)) = true := by
+  obtain ⟨h1, h2⟩ := list_filtered acc sh mode early field
+  unfold checkList observeList
+  simp only [Bool.and_eq_true, List.all_eq_true]
+  constructor
+  · intro e he
+    rw [List.mem_filterMap] at he
+    obtain ⟨i, hi, he⟩ := he
+    obtain ⟨r, hr, hacc, htomb⟩ := h1 i hi
+    simp only [hr, Option.map_some, Option.some.injEq] at he
+    subst he
+    unfold entryOk
+    rw [List.any_eq_true]
+    exact ⟨r, List.mem_of_getElem? hr, by simp [hacc, htomb]⟩
+  · intro id hid
+    obtain ⟨w, hw, rfl⟩ := finalIds_mem _ id hid
+    obtain ⟨r, hr, hacc, htomb, hid⟩ := h2 w hw
+    unfold idOk
+    rw [List.any_eq_true]
+    exact ⟨r, List.mem_of_getElem? hr, by simp [hacc, htomb, hid]⟩
+
+/-! ### completeness: filtering removes nothing the context is entitled to -/
+
+/-- without a per-repository limit every live matching document of a repository the context may access is returned -/
+theorem files_complete (acc : Int → Bool) (sh : Shard) (j : Nat) (d : Doc) (r : Repo)
+    (hd : sh.docs[j]? = some d) (hr : sh.repos[d.repo]? = some r) (hacc : acc r.tenant = true) (htomb : r.tomb = false)
+    (hft : d.ftomb = false) (hc : d.count ≠ 0) :
+    ⟨d.repo, j, r.name, r.id, d.name⟩ ∈ (search acc sh false 0).files := by
+  unfold search
+  simp only [Bool.false_eq_true, if_false, List.mem_reverse]
+  have := loopFrom_complete acc sh sh.docs [] ⟨0, 0, []⟩ j d r hd hr hacc htomb hft hc
+  simpa using this
+
+/-- **only the internal system context sees all of them**: the system context has access to every tenant's
+    repositories in every enforcement mode, so (by `files_complete`) it is returned every live matching document. -/
+theorem system_sees_all (strict : Bool) (sh : Shard) (j : Nat) (d : Doc) (r : Repo)
+    (hd : sh.docs[j]? = some d) (hr : sh.repos[d.repo]? = some r) (htomb : r.tomb = false)
+    (hft : d.ftomb = false) (hc : d.count ≠ 0) :
+    ⟨d.repo, j, r.name, r.id, d.name⟩ ∈ (search (hasAccess strict .system) sh false 0).files :=
+  files_complete _ sh j d r hd hr (hasAccess_system strict r.tenant) htomb hft hc
+
+/-- … and a tenant is returned every live matching document of its own repositories -/
+theorem tenant_sees_all_own (t : Int) (sh : Shard) (j : Nat) (d : Doc) (r : Repo)
+    (hd : sh.docs[j]? = some d) (hr : sh.repos[d.repo]? = some r) (hown : r.tenant = t) (htomb : r.tomb = false)
+    (hft : d.ftomb = false) (hc : d.count ≠ 0) :
+    ⟨d.repo, j, r.name, r.id, d.name⟩ ∈ (search (hasAccess true (.tenant t)) sh false 0).files :=
+  files_complete _ sh j d r hd hr ((hasAccess_tenant_iff t r.tenant).2 hown.symm) htomb hft hc
+
 /-! ### non-interference -/
 
 /-- **non-interference, search**: the whole result of a search (files, RepoURLs, LineFragments) is unchanged when every
@@ -203,5 +280,32 @@ theorem fields_covered : ∀ f ∈ Gen.c23Fields, classify f ≠ "UNCOVERED" := 
 /-- the statistics structs embedded in the results have only counter fields -/
 theorem stats_are_counters :
     ∀ f ∈ Gen.c23Fields, ["Stats", "Progress", "RepoStats"].contains f.1 = true → counterTypes.contains f.2.2 = true := by decide
+
+/-! ### non-vacuity: a compound shard of tenants 1 and 2 (tenant 2 has a sub-repository and a tombstoned repository) -/
+
+def exShard : Shard :=
+  ⟨[⟨1, 11, "t1/a", false, "u1a", "f1a", []⟩,
+    ⟨2, 22, "t2/b", false, "u2b", "f2b", [⟨"t2/sub", "u2s", "f2s"⟩]⟩,
+    ⟨1, 0, "t1/c", false, "u1c", "f1c", []⟩,
+    ⟨2, 24, "t2/dead", true, "u2d", "f2d", []⟩],
+   [⟨0, "a.go", false, 2⟩, ⟨0, "b.go", false, 0⟩, ⟨1, "secret.go", false, 1⟩, ⟨1, "s2.go", false, 3⟩, ⟨2, "c.go", false, 1⟩,
+    ⟨2, "gone.go", true, 1⟩, ⟨3, "dead.go", false, 1⟩]⟩
+
+example : (search (hasAccess true (.tenant 1)) exShard false 0).files.map (fun f => (f.repository, f.repositoryID, f.fileName)) =
+      [("t1/a", 11, "a.go"), ("t1/c", 0, "c.go")] ∧
+    (search (hasAccess true (.tenant 1)) exShard false 0).urls = [("t1/a", "u1a"), ("t1/c", "u1c")] ∧
+    (search (hasAccess true (.tenant 1)) exShard false 0).frags = [("t1/a", "f1a"), ("t1/c", "f1c")] := by decide
+/-- per-repository limit 1; the tombstoned repository's documents are skipped -/
+example : (search (hasAccess true (.tenant 2)) exShard false 1).files.map (·.fileName) = ["secret.go"] ∧
+    (search (hasAccess true (.tenant 2)) exShard false 1).urls = [("t2/b", "u2b"), ("t2/sub", "u2s"), ("t2/dead", "u2d")] := by decide
+example : (search (hasAccess true .system) exShard false 0).files.length = 4 := by decide
+example : search (hasAccess true .none) exShard false 0 = ⟨[], [], []⟩ := by decide
+example : list (hasAccess true (.tenant 1)) exShard .constTrue false .reposMap = ⟨[2], [(11, 0)], 4⟩ := by decide
+example : list (hasAccess true (.tenant 2)) exShard .viaSearch false .repos = ⟨[1], [], 2⟩ := by decide
+/-- the executable statement is not trivially true: tenant 1 being shown tenant 2's URL template fails it -/
+example : checkSearch (mayAccess (.tenant 1)) exShard ⟨[], [("t2/b", "u2b")], []⟩ = false := by decide
+example : checkSearch (mayAccess (.tenant 1)) exShard ⟨[("t2/b", 22, "secret.go")], [], []⟩ = false := by decide
+example : checkList (mayAccess (.tenant 1)) exShard ⟨[("t2/b", 22)], []⟩ = false := by decide
+example : checkList (mayAccess (.tenant 2)) exShard ⟨[("t2/dead", 24)], []⟩ = false := by decide
 
 end ZoektModel.C23
